@@ -101,7 +101,17 @@ def draw_config(rng, nb=None, multi_dir=False, uniform_alpha=None, att_zero=Fals
     # the bisecting planes of the sampling (exact ties of the nearest-sample lookup)
     phase = float(np.round(rng.uniform(0.05, 0.7), 4)) if multi_dir else 0.0
     assign = "override" if rng.random() < 0.35 else "direct"
-    cfg = dict(assign=assign, phase=phase, dims=dims, patch_size=ps, n_patches=npat, nb=nb, freqs=freqs, alpha=alpha,
+    # incoming and outgoing direction sets of the BRDF: the same sampling, the same count with
+    # another azimuth phase, or another count altogether
+    out_dirs = None
+    if multi_dir:
+        u = rng.random()
+        if u < 0.35:
+            out_dirs = (nt, nphi, float(np.round(phase + rng.uniform(0.2, 0.6), 4)))
+        elif u < 0.6:
+            out_dirs = (int(rng.integers(1, 3)), int(rng.choice([2, 4])),
+                        float(np.round(rng.uniform(0.75, 1.4), 4)))
+    cfg = dict(out_dirs=out_dirs, assign=assign, phase=phase, dims=dims, patch_size=ps, n_patches=npat, nb=nb, freqs=freqs, alpha=alpha,
                att=att, nt=nt, nphi=nphi, random_tables=bool(random_tables), offset=off,
                table_seed=int(rng.integers(0, 2**31)))
     if partition:
@@ -122,6 +132,9 @@ def directions(cfg):
         d = pf.Coordinates(0, 0, 1, weights=1)
         return d, d
     d = gauss_hemisphere(cfg["nt"], cfg["nphi"], phase=cfg.get("phase", 0.0))
+    od = cfg.get("out_dirs")
+    if od:
+        return d, gauss_hemisphere(int(od[0]), int(od[1]), phase=float(od[2]))
     return d, d.copy()
 
 
